@@ -12,6 +12,10 @@
 #include <validation.h>
 #include <util/chaintype.h>
 
+#include <functional>
+struct VerifParamReg { static std::vector<std::function<void()>>& all() { static std::vector<std::function<void()>> v; return v; } VerifParamReg(std::function<void()> f) { all().push_back(f); } };
+// tie/params/<name>.h files add their own constants:  VERIF_PARAMS(name) { DZ(CONST); ... }
+#define VERIF_PARAMS(n) static void verif_dump_##n(); static VerifParamReg verif_reg_##n(verif_dump_##n); static void verif_dump_##n()
 static void defz(const char* n, long long v) { std::cout << "Definition " << n << " : Z := (" << v << ")%Z.\n"; }
 static void defzu(const char* n, unsigned long long v) { std::cout << "Definition " << n << " : Z := (" << v << ")%Z.\n"; }
 #define DZ(x) defz(#x, (long long)(x))
@@ -39,6 +43,8 @@ static void chain(const char* name, const CChainParams& p)
               << "  cp_min_chain_work := " << z256(c.nMinimumChainWork) << ";\n"
               << "|}.\n";
 }
+
+#include <params_all.h>   // generated: includes every tie/params/*.h in sorted order
 
 int main()
 {
@@ -70,6 +76,8 @@ int main()
     chain("testnet4", *CChainParams::TestNet4());
     chain("signet", *CChainParams::SigNet());
     chain("regtest", *CChainParams::RegTest());
+    std::cout << "\n";
+    for (auto& f : VerifParamReg::all()) f();
     std::cout << "Definition all_chains : list chain_params := [chain_main; chain_test; chain_testnet4; chain_signet; chain_regtest].\n";
     return 0;
 }
